@@ -21,8 +21,8 @@ type aGen struct {
 	nestedArray, parenUnion, hasFun, hasConst bool
 }
 
-var aNames = []string{"string", "number", "boolean", "any", "People", "Man", "Car", "T", "mod.Cls", "integer", "void"}
-var aIdents = []string{"name", "age", "one", "x", "cb", "list", "sep", "people"}
+var aNames = []string{"string", "number", "boolean", "any", "People", "Man", "Car", "T", "mod.Cls", "integer", "void", "Vec10", "Item20"}
+var aIdents = []string{"name", "age", "one", "x", "cb", "list", "sep", "people", "p10", "x0"}
 
 func (g *aGen) sp() string {
 	switch g.r.Intn(6) {
@@ -227,11 +227,17 @@ func (g *aGen) line() (string, string) {
 		var ts, ds []string
 		for i := 0; i < n; i++ {
 			t, d := g.union(3, 2)
-			ts = append(ts, t)
-			ds = append(ds, d)
 			if strings.Contains(d, "F[") {
+				ts = append(ts, t)
+				ds = append(ds, d)
 				break
 			}
+			// a return type may carry the optional marker
+			if g.r.Chance(1, 3) {
+				t, d = t+g.sp()+"?", d+"?"
+			}
+			ts = append(ts, t)
+			ds = append(ds, d)
 		}
 		ct, cd := g.comment()
 		return "return " + strings.Join(ts, g.sp()+","+g.sp()) + ct, "return " + strings.Join(ds, ";") + " " + hexS(cd)
